@@ -199,7 +199,8 @@ func checkTextUnits(c *Ctx, u *Universe) {
 		var fmtObj types.Object
 		for _, fl := range fd.Type.Params.List {
 			for _, nm := range fl.Names {
-				if nm.Name == "formatter" {
+				// the directive is the string parameter (whatever it is called)
+				if b, ok := p.TypesInfo.TypeOf(fl.Type).Underlying().(*types.Basic); ok && b.Kind() == types.String {
 					fmtObj = p.TypesInfo.Defs[nm]
 				}
 			}
@@ -282,32 +283,95 @@ func rootAlloc(v ssa.Value) ssa.Value {
 
 func checkTemplateScanner(c *Ctx, u *Universe) {
 	R := c.R
-	fd, p := u.funcDecl("pkg/exec", "formatString")
-	if fd == nil {
+	fd0, p := u.funcDecl("pkg/exec", "formatString")
+	if fd0 == nil {
 		R.lost("C14.tmpl", "pkg/exec.formatString")
 		return
 	}
 	info := p.TypesInfo
-	pos := u.pos(fd.Pos())
+	pos := u.pos(fd0.Pos())
+	// the scanner is the character loop with a switch in formatString or in a helper it calls
+	fd := fd0
 	body, loop := findMachineLoop(fd)
+	if rs0, _ := loop.(*ast.RangeStmt); body == nil || rs0 == nil {
+		ast.Inspect(fd0.Body, func(n ast.Node) bool {
+			call, ok := n.(*ast.CallExpr)
+			if !ok {
+				return true
+			}
+			if f := calleeFunc(info, call); f != nil && f.Pkg() == p.Types {
+				if g, _ := u.funcDecl("pkg/exec", f.Name()); g != nil && g != fd0 {
+					if b2, l2 := findMachineLoop(g); b2 != nil {
+						if _, isRange := l2.(*ast.RangeStmt); isRange && body == nil {
+							fd, body, loop = g, b2, l2
+						}
+					}
+				}
+			}
+			return true
+		})
+	}
 	rs, _ := loop.(*ast.RangeStmt)
 	if body == nil || rs == nil {
 		R.undecided("C14.tmpl", "pkg/exec.formatString", pos, "scanner loop not found")
 		return
 	}
 	idxObj, chObj := identObj(info, rs.Key), identObj(info, rs.Value)
-	stateObj := findLocal(info, fd, "state")
-	stackObj := findLocal(info, fd, "fmtStack")
-	countObj := findLocal(info, fd, "formatterCount")
-	consts := localIntConsts(info, fd)
+	// roles, not names: state = the local assigned only local constants; stack = the local slice the loop appends
+	// to; placeholder counter = the local the loop increments
+	var stateObj, stackObj, countObj types.Object
+	if sv := stateLikeVars(info, fd); len(sv) == 1 {
+		stateObj = sv[0]
+	}
+	if cv := counterVars(info, body); len(cv) == 1 {
+		countObj = cv[0]
+	}
+	ast.Inspect(body, func(n ast.Node) bool {
+		if as, ok := n.(*ast.AssignStmt); ok && len(as.Lhs) == 1 && len(as.Rhs) == 1 {
+			if call, ok := as.Rhs[0].(*ast.CallExpr); ok {
+				if bi, isB := info.Uses[identOf(call.Fun)].(*types.Builtin); isB && bi.Name() == "append" && len(call.Args) >= 1 {
+					if o := identObj(info, as.Lhs[0]); o != nil && o == identObj(info, call.Args[0]) {
+						if stackObj == nil {
+							stackObj = o
+						} else if stackObj != o {
+							stackObj = nil
+							return false
+						}
+					}
+				}
+			}
+		}
+		return true
+	})
 	pkgConsts := constsWithPrefix(p, "fmtType")
 	if idxObj == nil || chObj == nil || stateObj == nil || stackObj == nil || countObj == nil {
-		R.undecided("C14.tmpl", "pkg/exec.formatString", pos, "scanner variables not found")
+		R.undecided("C14.tmpl", "pkg/exec.formatString", pos, "scanner variables not identifiable (state / triple stack / placeholder counter)")
 		return
 	}
-	sB, sL, sF := consts["sBegin"], consts["sLiteral"], consts["sFormat"]
 	tLit, tFmt := pkgConsts["fmtTypeLiteral"], pkgConsts["fmtTypeFormatter"]
-	if sB == 0 || sL == 0 || sF == 0 || tLit == 0 || tFmt == 0 {
+	// the three states by role: B = the initial state, F = where '{' leads from B, L = where another character leads from B
+	stepState := func(from int64, ch rune) int64 {
+		pe := newPE(u, info, fd)
+		st := newState()
+		st.env[stateObj] = intVal(from)
+		st.env[chObj] = intVal(int64(ch))
+		st.env[idxObj] = intVal(7)
+		st.env[stackObj] = Val{K: vStr, S: "S"}
+		st.env[countObj] = intVal(0)
+		outs := pe.exec(st, body.List)
+		if pe.failed != "" || len(outs) != 1 || outs[0].St.env[stateObj].K != vInt {
+			return 0
+		}
+		return outs[0].St.env[stateObj].I
+	}
+	var sB, sL, sF int64
+	if defs := definitionsOf(info, fd, stateObj); len(defs) > 0 {
+		sB, _ = constInt(info, defs[0])
+	}
+	if sB != 0 {
+		sF, sL = stepState(sB, '{'), stepState(sB, 'a')
+	}
+	if sB == 0 || sL == 0 || sF == 0 || sB == sL || sB == sF || sL == sF || tLit == 0 || tFmt == 0 {
 		R.undecided("C14.tmpl", "pkg/exec.formatString", pos, "state / kind constants not found")
 		return
 	}
@@ -348,7 +412,7 @@ func checkTemplateScanner(c *Ctx, u *Universe) {
 			}
 			o := outs[0]
 			if want.err {
-				if o.Kind != "return" || len(o.RetV) != 2 || o.RetV[1].K == vNil {
+				if o.Kind != "return" || len(o.RetV) < 2 || o.RetV[len(o.RetV)-1].K == vNil {
 					nBad++
 					if first == "" {
 						first = desc + ": malformed template is not rejected"
@@ -403,7 +467,7 @@ func checkTemplateScanner(c *Ctx, u *Universe) {
 		outs := pe.exec(st, after)
 		rejected := false
 		for _, o := range outs {
-			if o.Kind == "return" && len(o.RetV) == 2 && o.RetV[1].K != vNil && len(o.St.assumed) == 0 {
+			if o.Kind == "return" && len(o.RetV) >= 2 && o.RetV[len(o.RetV)-1].K != vNil && len(o.St.assumed) == 0 {
 				rejected = true
 			}
 		}
